@@ -162,6 +162,15 @@ class Tokens(Sub):
         for nm, e in comp.items():
             g = getattr(dt, nm)()
             req(g == e, f"{nm}() is not the documented composition", value=dt.isoformat(), got=g, expected=e)
+        # the named helpers are fixed (English / numeric) compositions: the process-wide default locale must not leak into them
+        pendulum.set_locale(loc)
+        try:
+            for nm, e in comp.items():
+                g = getattr(dt, nm)()
+                req(g == e, f"{nm}() changes with the default locale (set_locale({loc!r}))", value=dt.isoformat(), got=g, expected=e)
+            req(dt.format(fmt) == want, "format() without locale= does not use the default locale set by set_locale()", fmt=fmt, got=dt.format(fmt), expected=want)
+        finally:
+            pendulum.set_locale("en")
         tot = T.td_us(dt.utcoffset()) // US
         nt = dt.hour in (0, 12) or dt.hour >= 13 or 0 < dt.microsecond < 100000 or tot < 0 or tot % 3600 != 0 or not loc.startswith("en")
         return nt, loc
